@@ -4,7 +4,7 @@
 From Coq Require Import List Arith Bool Lia Permutation.
 Import ListNotations.
 From NJ Require Import Base Collections Edits Registry Classify Select Reorder Machine Spec Bind.
-From NJ Require Import AllocProofs ReorderProofs PreserveProofs CoverProofs Chain OrderProofs.
+From NJ Require Import AllocProofs ReorderProofs PreserveProofs CoverProofs CoverBypass Chain OrderProofs.
 
 (* ---------- what the classification tables guarantee ---------- *)
 Definition fe_none (e : flowE) : bool := match e with FE_none => true | _ => false end.
@@ -339,8 +339,9 @@ Proof. induction n as [|n IH]; intros [|i]; simpl; try reflexivity. apply IH. Qe
 
 (* ---------- the working list consists of table-shaped providers, at most one init ---------- *)
 Definition is_init_s (s : sprov) : bool := class_eqb (s_class s) ClInit.
+Definition is_invoke_s (s : sprov) : bool := class_eqb (s_class s) ClInvoke.
 Definition listq (te : tyenv) (n : nat) (L : list sprov) : Prop :=
-  Forall (fun s => shape_ok te s = true) L /\ length (filter is_init_s L) <= n.
+  Forall (fun s => shape_ok te s = true) L /\ length (filter is_init_s L) <= n /\ length (filter is_invoke_s L) <= 1.
 
 Lemma perm_filter_length {A} (f : A -> bool) (l l' : list A) :
   Permutation l l' -> length (filter f l) = length (filter f l').
@@ -353,9 +354,10 @@ Qed.
 
 Lemma listq_perm te n L L' : Permutation L L' -> listq te n L -> listq te n L'.
 Proof.
-  intros HP [A B]. split.
+  intros HP (A & B & C). split; [|split].
   - eapply Permutation_Forall; eassumption.
   - rewrite <- (perm_filter_length is_init_s L L' HP). exact B.
+  - rewrite <- (perm_filter_length is_invoke_s L L' HP). exact C.
 Qed.
 
 (* Reorder permutes the providers themselves (up to the cannotInclude mark) *)
@@ -461,11 +463,24 @@ Proof. induction l as [|x r IH]; cbn [filter length]; [lia|]. destruct (f x); cb
 
 Lemma listq_pieces te n (il rest : list sprov) :
   Forall (fun s => shape_ok te s = true) (il ++ rest) -> length il <= n ->
-  Forall (fun s => is_init_s s = false) rest -> listq te n (il ++ rest).
+  Forall (fun s => is_init_s s = false) rest -> length (filter is_invoke_s (il ++ rest)) <= 1 -> listq te n (il ++ rest).
 Proof.
-  intros HF Hl Hr. split; [exact HF|]. rewrite filter_app, app_length.
+  intros HF Hl Hr Hi. split; [exact HF|]. split; [|exact Hi]. rewrite filter_app, app_length.
   rewrite (filter_none is_init_s rest) by (rewrite Forall_forall in Hr; exact Hr). cbn [length].
   pose proof (filter_len_le is_init_s il). lia.
+Qed.
+
+Lemma okp_noninvoke te s : okp te s -> is_invoke_s s = false.
+Proof. intros [_ H]. unfold is_invoke_s. destruct (s_class s); try reflexivity; discriminate H. Qed.
+
+(* in the static context the invoke table makes an init function (the table's init entry comes
+   first and asks for nothing more); shape by shape, so that any table whose tests are determined
+   by the shape goes through *)
+Lemma init_entry_is_init te d l s : characterizeInitInvoke te d (mkCC l true) = Some s -> is_init_s s = true.
+Proof.
+  unfold characterizeInitInvoke, classify_in, invokeRegistry.
+  destruct (d_shape d) eqn:Es; cbn [classify_reg forallb e_tests pred_holds cc_isLast cc_inputsAreStatic andb negb];
+    rewrite ?Es; cbn [andb negb is_func_shape]; intros H; try discriminate H; injection H as <-; reflexivity.
 Qed.
 
 Definition init_bound (c : bcase) : nat := match bc_init c with Some _ => 1 | None => 0 end.
@@ -486,13 +501,15 @@ Proof.
   { split; [eapply classify_shape; [exact invoke_entries_ok|exact Einv]|eapply invoke_not_init; exact Einv]. }
   (* the init function, if any *)
   match goal with |- context [bindr ?IL _] => destruct IL as [il|e|e] eqn:Eil end; cbn [bindr]; try discriminate.
-  assert (Hil : length il <= init_bound c /\ Forall (fun s => shape_ok te s = true) il).
+  assert (Hil : length il <= init_bound c /\ Forall (fun s => shape_ok te s = true) il /\ Forall (fun s => is_invoke_s s = false) il).
   { unfold init_bound. destruct (bc_init c) as [ipd|].
     - destruct (characterizeInitInvoke te ipd (mkCC false true)) as [s|] eqn:Es; cbn [opt_res bindr] in Eil; [|discriminate].
-      injection Eil as <-. split; [cbn; lia|]. constructor; [|constructor].
-      eapply classify_shape; [exact invoke_entries_ok|exact Es].
-    - injection Eil as <-. split; [cbn; lia|constructor]. }
-  destruct Hil as [Hil1 Hil2].
+      injection Eil as <-. split; [cbn; lia|]. split; (constructor; [|constructor]).
+      + eapply classify_shape; [exact invoke_entries_ok|exact Es].
+      + pose proof (init_entry_is_init _ _ _ _ Es) as Hi. unfold is_init_s in Hi. unfold is_invoke_s.
+        destruct (s_class s); try discriminate Hi; reflexivity.
+    - injection Eil as <-. split; [cbn; lia|split; constructor]. }
+  destruct Hil as (Hil1 & Hil2 & Hil3).
   set (funcs := [dbg] ++ il ++ fst ba ++ [invS] ++ snd ba).
   set (rest := [dbg] ++ fst ba ++ [invS] ++ snd ba).
   assert (Hrest_ni : Forall (fun s => is_init_s s = false) rest).
@@ -510,10 +527,15 @@ Proof.
   assert (Hperm : Permutation funcs (il ++ rest)).
   { unfold funcs, rest. cbn [app]. apply Permutation_middle. }
   assert (Hq : listq te (init_bound c) funcs).
-  { eapply listq_perm; [apply Permutation_sym, Hperm|]. apply listq_pieces; [apply Forall_app; split; assumption|exact Hil1|exact Hrest_ni]. }
+  { eapply listq_perm; [apply Permutation_sym, Hperm|]. apply listq_pieces; [apply Forall_app; split; assumption|exact Hil1|exact Hrest_ni|].
+    unfold rest. rewrite !filter_app. cbn [filter]. rewrite !app_length.
+    rewrite (filter_none is_invoke_s il) by (rewrite Forall_forall in Hil3; exact Hil3).
+    rewrite (filter_none is_invoke_s (fst ba)) by (intros x Hx; rewrite Forall_forall in Hba1; eapply okp_noninvoke, Hba1, Hx).
+    rewrite (filter_none is_invoke_s (snd ba)) by (intros x Hx; rewrite Forall_forall in Hba2; eapply okp_noninvoke, Hba2, Hx).
+    rewrite (okp_noninvoke te dbg Hdbg). destruct (is_invoke_s invS); cbn [length app]; lia. }
   (* the synthetic Unused providers *)
   assert (Hadd : forall u L, okp te u -> listq te (init_bound c) L -> listq te (init_bound c) (u :: L)).
-  { intros u L Hu [A B]. split; [constructor; [apply Hu|exact A]|]. cbn [filter]. rewrite (okp_noninit te u Hu). exact B. }
+  { intros u L Hu (A & B & C). split; [constructor; [apply Hu|exact A]|]. cbn [filter]. rewrite (okp_noninit te u Hu), (okp_noninvoke te u Hu). split; assumption. }
   match goal with |- context [bindr ?F1 _] => destruct F1 as [f1|e|e] eqn:Ef1 end; cbn [bindr]; try discriminate.
   assert (Hq1 : listq te (init_bound c) f1).
   { destruct (existsb _ funcs) in Ef1.
@@ -671,7 +693,7 @@ Proof.
     eapply slot_idx_in. apply (sd_in sl). exact Es.
 Qed.
 
-(* the side conditions that remain hypotheses: runs_after_invoke and init_covered (Bind.v) *)
+(* the side condition that remains a hypothesis: runs_after_invoke (Bind.v) *)
 
 (* ---------- splan_of, case by case ---------- *)
 Section SplanOf.
@@ -695,19 +717,78 @@ Section SplanOf.
   Proof. intros H1 H2. unfold splan_of. cbv zeta. fold inc. fold invs. fold inits. rewrite H1, H2. reflexivity. Qed.
 End SplanOf.
 
+(* ---------- uniqueness of the init and invoke functions; the init function's returns ---------- *)
+Lemma unique_pos {A} (f : A -> bool) : forall (l : list A) a b x y,
+  length (filter f l) <= 1 -> nth_opt a l = Some x -> nth_opt b l = Some y -> f x = true -> f y = true -> a = b.
+Proof.
+  induction l as [|z r IH]; intros a b x y Hc Ha Hb Hx Hy; [destruct a; discriminate Ha|].
+  cbn [filter] in Hc. destruct a as [|a], b as [|b]; cbn [nth_opt] in Ha, Hb.
+  - reflexivity.
+  - exfalso. injection Ha as ->. rewrite Hx in Hc. cbn [length] in Hc.
+    assert (Hin : In y (filter f r)) by (apply filter_In; split; [eapply getp_in; exact Hb|exact Hy]).
+    destruct (filter f r); [destruct Hin|cbn [length] in Hc; lia].
+  - exfalso. injection Hb as ->. rewrite Hy in Hc. cbn [length] in Hc.
+    assert (Hin : In x (filter f r)) by (apply filter_In; split; [eapply getp_in; exact Ha|exact Hx]).
+    destruct (filter f r); [destruct Hin|cbn [length] in Hc; lia].
+  - f_equal. apply (IH a b x y); try assumption. destruct (f z); cbn [length] in Hc; lia.
+Qed.
+
+Lemma find_class_some c : forall l s k p, nth_opt k l = Some p -> class_eqb (p_class p) c = true ->
+  exists k0 p0, find_class c l s = Some (s + k0) /\ nth_opt k0 l = Some p0 /\ class_eqb (p_class p0) c = true.
+Proof.
+  induction l as [|x r IH]; intros s k p Hk Hc; [destruct k; discriminate Hk|].
+  cbn [find_class]. destruct (class_eqb (p_class x) c) eqn:E.
+  - exists 0, x. rewrite Nat.add_0_r. split; [reflexivity|]. split; [reflexivity|exact E].
+  - destruct k as [|k]; cbn [nth_opt] in Hk; [injection Hk as ->; congruence|].
+    destruct (IH (S s) k p Hk Hc) as (k0 & p0 & A & B & C). exists (S k0), p0.
+    replace (s + S k0) with (S s + k0) by lia. split; [exact A|]. split; [exact B|exact C].
+Qed.
+
+Lemma find_class_unique c (funcs : list prov) k p :
+  length (filter (fun s => class_eqb (s_class s) c) (map p_s funcs)) <= 1 ->
+  getp funcs k = Some p -> class_eqb (p_class p) c = true -> find_class c funcs 0 = Some k.
+Proof.
+  intros Hc Hk Hp. destruct (find_class_some c funcs 0 k p Hk Hp) as (k0 & p0 & A & B & C). rewrite A. cbn [Nat.add]. f_equal.
+  rewrite <- (filter_map_len (fun s => class_eqb (s_class s) c) p_s) in Hc.
+  apply (unique_pos (fun q => class_eqb (s_class (p_s q)) c) funcs k0 k p0 p Hc B Hk); assumption.
+Qed.
+
+Theorem plan_covers_bypass c pl : plan_of c = Ok pl ->
+  (exists p, getp (pl_funcs pl) (pl_invokeIndex pl) = Some p /\ p_include p = true /\ class_eqb (p_class p) ClInvoke = true) ->
+  forall k p t, getp (pl_funcs pl) k = Some p -> p_include p = true -> class_eqb (p_class p) ClInit = true ->
+    In t (pflow p FBypass) -> t <> te_noT (bc_te c) ->
+    exists i, sd_of (pl_slots pl) (remap (p_bypassR p) t) = Some i.
+Proof.
+  intros Hp Hinv k p t Hk Hi Hc Ht Hn.
+  destruct (plan_listq c pl Hp) as ((_ & Hcount & Hcinv) & Hsl & Hfc).
+  assert (Hcount1 : length (filter is_init_s (map p_s (pl_funcs pl))) <= 1) by (unfold init_bound in Hcount; destruct (bc_init c); lia).
+  pose proof Hp as Hp'. unfold plan_of in Hp'.
+  destruct (assemble c) as [f0|e|e]; cbn [bindr] in Hp'; try discriminate.
+  destruct (reorder_funcs (bc_te c) f0) as [f1|e|e]; cbn [bindr] in Hp'; try discriminate.
+  destruct (select (bc_te c) f1) as [funcs|e|e] eqn:Es; cbn [bindr] in Hp'; try discriminate.
+  destruct (opt_res (find_class ClInvoke funcs 0) EB_INTERNAL) as [ii|e|e]; cbn [bindr] in Hp'; try discriminate.
+  destruct (negb (check_shadowing (bc_te c) funcs)); [discriminate|].
+  destruct (negb (init_bypass_ok funcs (sl_down0 (allocate_slots funcs ii)))); [discriminate|].
+  injection Hp' as <-. cbn [pl_funcs pl_slots pl_invokeIndex] in *.
+  destruct (select_covers_bypass (bc_te c) f1 funcs ii Es Hfc) with (k := k) (p := p) (t := t) as [i Hi']; try assumption.
+  - intros v q Hq Hqc. pose proof (find_class_unique ClInvoke funcs v q Hcinv Hq Hqc) as Hf. congruence.
+  - apply (find_class_unique ClInit funcs k p Hcount1 Hk Hc).
+  - exists i. unfold sd_of. rewrite Hi'. reflexivity.
+Qed.
+
 (* ---------- every bound chain satisfies the hypotheses of the refinement theorem ---------- *)
 Theorem bind_plan_wf c pl b :
-  bind_chain c = Ok (pl, b) -> runs_after_invoke pl = true -> init_covered pl = true ->
+  bind_chain c = Ok (pl, b) -> runs_after_invoke pl = true ->
   plan_wf (bc_te c) pl b = true.
 Proof.
-  intros Hb Hrai Hic. unfold bind_chain in Hb. set (te := bc_te c) in *.
+  intros Hb Hrai. unfold bind_chain in Hb. set (te := bc_te c) in *.
   destruct (plan_of c) as [pl0|e|e] eqn:Epl; cbn [bindr] in Hb; try discriminate.
   destruct (compile_all te (sl_down (pl_slots pl0)) (sl_up (pl_slots pl0)) (sl_funcs (pl_slots pl0))) as [cps|] eqn:Ec;
     cbn [opt_res bindr] in Hb; [|discriminate].
   destruct (of_group GFinal cps) as [|fin [|? ?]] eqn:Efin; try discriminate.
   destruct (of_class ClInvoke cps) as [|inv [|? ?]] eqn:Einv; try discriminate.
   injection Hb as -> <-.
-  destruct (plan_listq c pl Epl) as ([Hshape Hcount] & Hsl & Hfc). fold te in Hshape, Hcount.
+  destruct (plan_listq c pl Epl) as ((Hshape & Hcount & Hcinv) & Hsl & Hfc). fold te in Hshape, Hcount.
   destruct (plan_covers c pl Epl) as [CA CB]. fold te in CA, CB.
   set (sl := pl_slots pl) in *. set (funcs := pl_funcs pl) in *. set (ii := pl_invokeIndex pl) in *.
   assert (Hok : slots_ok_b sl = true) by (rewrite Hsl; apply allocate_slots_ok).
@@ -872,22 +953,19 @@ Proof.
     cbn [sp_init r_ins].
     assert (Hit : In it inc /\ class_eqb (p_class (fst it)) ClInit = true).
     { assert (H : In it inits) by (rewrite Einits; left; reflexivity). unfold inits in H. apply filter_In in H. exact H. }
-    destruct Hit as [Hit Hitc]. destruct (Hinc _ Hit) as (Hi & _ & Hf & _).
-    unfold init_covered in Hic. rewrite forallb_forall in Hic. specialize (Hic _ Hf). rewrite Hi, Hitc in Hic. cbn [andb negb orb] in Hic.
-    rewrite forallb_forall in Hic. apply forallb_forall. intros t' Ht'. apply in_map_iff in Ht'. destruct Ht' as (t & <- & Ht).
-    apply Hic, Ht.
-Qed.
-
-(* without an init function there is nothing to cover *)
-Lemma init_covered_no_init c pl : plan_of c = Ok pl -> bc_init c = None -> init_covered pl = true.
-Proof.
-  intros Hp Hn. destruct (plan_listq c pl Hp) as ([_ Hcount] & _). unfold init_bound in Hcount. rewrite Hn in Hcount.
-  unfold init_covered. apply forallb_forall. intros p Hp'.
-  assert (Hc : class_eqb (p_class p) ClInit = false).
-  { destruct (class_eqb (p_class p) ClInit) eqn:E; [|reflexivity]. exfalso.
-    assert (Hin : In (p_s p) (filter is_init_s (map p_s (pl_funcs pl)))) by (apply filter_In; split; [apply in_map, Hp'|exact E]).
-    destruct (filter is_init_s (map p_s (pl_funcs pl))); [destruct Hin|cbn [length] in Hcount; lia]. }
-  rewrite Hc, andb_false_r. reflexivity.
+    destruct Hit as [Hit Hitc]. destruct it as [p zero]. cbn [fst] in *.
+    destruct (Hinc _ Hit) as (Hi & _ & Hf & [k Hk] & [cc Hcc]). cbn [fst] in *.
+    (* the invoke function is included, at the invoke index *)
+    assert (Hinvii : exists q, getp funcs ii = Some q /\ p_include q = true /\ class_eqb (p_class q) ClInvoke = true).
+    { destruct iv as [q zq]. cbn [fst] in *. destruct (Hinc _ Hiv) as (Hqi & _ & _ & [kq Hkq] & _). cbn [fst] in *.
+      pose proof (find_class_unique ClInvoke funcs kq q Hcinv Hkq Hivc) as Hfq. rewrite Hfc in Hfq. injection Hfq as Hfq. subst kq.
+      exists q. repeat split; assumption. }
+    unfold compile_one in Hcc. pose proof Hitc as Hitc'. apply class_eqb_eq in Hitc'. rewrite Hitc' in Hcc.
+    destruct (param_slots te (pflow p FOut) None (sl_down sl)) as [o|]; [|discriminate].
+    destruct (param_slots te (pflow p FBypass) (Some (p_bypassR p)) (sl_down sl)) as [bb|] eqn:E2; [|discriminate].
+    apply param_slots_spec in E2. destruct E2 as [N2 _].
+    apply forallb_forall. intros t' Ht'. apply in_map_iff in Ht'. destruct Ht' as (t & <- & Ht).
+    apply is_some_ex. apply (plan_covers_bypass c pl Epl Hinvii k p t Hk Hi Hitc Ht (N2 t Ht)).
 Qed.
 
 Lemma bind_chain_plan c pl b : bind_chain c = Ok (pl, b) -> plan_of c = Ok pl.
@@ -902,10 +980,10 @@ Qed.
 (* The refinement theorem without the decidable well-formedness hypothesis: every chain that binds
    runs, for every provider behaviour, world and session, exactly as the reference semantics of its
    plan - provided only that no included per-invocation provider other than a plain injector was placed
-   before the invoke function and that what an init function returns has slots. *)
+   before the invoke function. *)
 Theorem chain_refines_bound :
   forall (c : bcase) (pl : plan) (b : bound),
-    bind_chain c = Ok (pl, b) -> runs_after_invoke pl = true -> init_covered pl = true ->
+    bind_chain c = Ok (pl, b) -> runs_after_invoke pl = true ->
     exists sp, splan_of (bc_te c) pl = Some sp /\
     forall (W : Type) (beh_fn : nat -> W -> list val -> W * list val)
            (beh_wrap : nat -> W -> list val -> wtree W) (steps : list step) (w0 : W),
@@ -914,17 +992,17 @@ Theorem chain_refines_bound :
                            (mkSsess W w0 (base_env (pl_slots pl) (bd_base0 b)) false true) steps in
       snd m = snd s /\ ss_w W (fst m) = sq_w W (fst s).
 Proof.
-  intros c pl b Hb H1 H2. apply (chain_refines c pl b Hb). apply bind_plan_wf; assumption.
+  intros c pl b Hb H1. apply (chain_refines c pl b Hb). apply bind_plan_wf; assumption.
 Qed.
 
 Theorem run_safe_bound :
   forall (c : bcase) (pl : plan) (b : bound),
-    bind_chain c = Ok (pl, b) -> runs_after_invoke pl = true -> init_covered pl = true ->
+    bind_chain c = Ok (pl, b) -> runs_after_invoke pl = true ->
     forall (W : Type) (beh_fn : nat -> W -> list val -> W * list val)
            (beh_wrap : nat -> W -> list val -> wtree W) (steps : list step) (w0 : W),
       ~ In RPanic (snd (run_session W beh_fn beh_wrap b (mkSess W w0 (bd_base0 b) false true) steps)).
 Proof.
-  intros c pl b Hb H1 H2. apply (run_safe c pl b Hb). apply bind_plan_wf; assumption.
+  intros c pl b Hb H1. apply (run_safe c pl b Hb). apply bind_plan_wf; assumption.
 Qed.
 Print Assumptions chain_refines_bound.
 
@@ -1181,7 +1259,7 @@ Qed.
 
 Definition plain_case (c : bcase) : bool :=
   forallb (fun d => negb (d_reorder d)) (bc_provs c) && negb (d_reorder (bc_invoke c)) &&
-  match bc_init c with None => true | Some _ => false end.
+  match bc_init c with None => true | Some i => negb (d_reorder i) end.
 
 Lemma assemble_no_reorder c f0 : assemble c = Ok f0 ->
   forallb (fun d => negb (d_reorder d)) (bc_provs c) = true -> d_reorder (bc_invoke c) = false ->
@@ -1228,9 +1306,9 @@ Proof.
   intros H. injection H as <-. apply Forall_map. eapply Forall_impl; [|exact H2]. intros s Hs. exact Hs.
 Qed.
 
-(* The headline: for every case without Reorder annotations and without an init function, a chain
-   that binds runs - for every provider behaviour, world and session - exactly as the reference
-   semantics of its plan.  No hypothesis is left to be validated on the case. *)
+(* The headline: for every case without Reorder annotations, a chain that binds runs - for every
+   provider behaviour, world and session - exactly as the reference semantics of its plan.  No
+   hypothesis is left to be validated on the case. *)
 Theorem chain_refines_plain :
   forall (c : bcase) (pl : plan) (b : bound),
     plain_case c = true -> bind_chain c = Ok (pl, b) ->
@@ -1244,13 +1322,12 @@ Theorem chain_refines_plain :
 Proof.
   intros c pl b Hpc Hb. unfold plain_case in Hpc.
   apply andb_true_iff in Hpc. destruct Hpc as [Hpc Hni]. apply andb_true_iff in Hpc. destruct Hpc as [Hprovs Hinvk].
-  apply negb_true_iff in Hinvk. destruct (bc_init c) eqn:Ei; [discriminate|].
+  apply negb_true_iff in Hinvk.
   pose proof (bind_chain_plan c pl b Hb) as Hp.
   destruct (assemble c) as [f0|e|e] eqn:Ea; [|unfold plan_of in Hp; rewrite Ea in Hp; discriminate Hp..].
   apply (chain_refines_bound c pl b Hb).
-  - apply (runs_after_invoke_no_reorder c pl b f0 Hb Ea). apply (assemble_no_reorder c f0 Ea Hprovs Hinvk).
-    intros i Hi. rewrite Ei in Hi. discriminate Hi.
-  - apply (init_covered_no_init c pl Hp Ei).
+  apply (runs_after_invoke_no_reorder c pl b f0 Hb Ea). apply (assemble_no_reorder c f0 Ea Hprovs Hinvk).
+  intros i Hi. rewrite Hi in Hni. apply negb_true_iff in Hni. exact Hni.
 Qed.
 Print Assumptions chain_refines_plain.
 
@@ -1263,11 +1340,10 @@ Theorem run_safe_plain :
 Proof.
   intros c pl b Hpc Hb. pose proof Hpc as Hpc'. unfold plain_case in Hpc.
   apply andb_true_iff in Hpc. destruct Hpc as [Hpc Hni]. apply andb_true_iff in Hpc. destruct Hpc as [Hprovs Hinvk].
-  apply negb_true_iff in Hinvk. destruct (bc_init c) eqn:Ei; [discriminate|].
+  apply negb_true_iff in Hinvk.
   pose proof (bind_chain_plan c pl b Hb) as Hp.
   destruct (assemble c) as [f0|e|e] eqn:Ea; [|unfold plan_of in Hp; rewrite Ea in Hp; discriminate Hp..].
   apply (run_safe_bound c pl b Hb).
-  - apply (runs_after_invoke_no_reorder c pl b f0 Hb Ea). apply (assemble_no_reorder c f0 Ea Hprovs Hinvk).
-    intros i Hi. rewrite Ei in Hi. discriminate Hi.
-  - apply (init_covered_no_init c pl Hp Ei).
+  apply (runs_after_invoke_no_reorder c pl b f0 Hb Ea). apply (assemble_no_reorder c f0 Ea Hprovs Hinvk).
+  intros i Hi. rewrite Hi in Hni. apply negb_true_iff in Hni. exact Hni.
 Qed.
